@@ -148,6 +148,10 @@ func (p Proxy) ServeHTTP(w http.ResponseWriter, r *http.Request) (int, error) {
 
 	if requiresBuffering {
 		body, err := newBufferedBody(outreq.Body)
+		if errors.Is(err, httpserver.ErrMaxBytesExceeded) {
+			// the limits directive cut the body off: same answer as without buffering
+			return http.StatusRequestEntityTooLarge, err
+		}
 		if err != nil {
 			return http.StatusBadRequest, errors.New("failed to read downstream request body")
 		}
